@@ -171,4 +171,61 @@ def classify (r : Row) (h : Head) : Listed :=
     | none => .omitted
   | .bad => .invalid
 
+/-! ### the expression language the regenerated facts (`WK.Gen.C34`, extract/c34.go) are written in
+
+  extract/c34.go serialises the Go expressions of conversationFromMembership,
+  joinVisibilityFloor, maxMembershipFloor, ClearUnread, SetUnread and
+  DeleteConversation into `GoE` terms; the evaluator below is their meaning.
+  `sub` is *partial*: it is defined only when no uint64 wrap-around happens, so
+  "evaluates to the model's value" includes "the guard in the source is sufficient". -/
+
+inductive GoE
+  | f (name : String)            -- variable / field selector, by its source text
+  | n (v : Nat)                  -- integer literal
+  | sub (a b : GoE)
+  | gt (a b : GoE) | ge (a b : GoE) | lt (a b : GoE) | le (a b : GoE) | eq (a b : GoE)
+  | and (a b : GoE) | or (a b : GoE) | not (a : GoE)
+  | jfloor (a : GoE)             -- joinVisibilityFloor(a)
+  | u64 (a : GoE)                -- uint64(a) of a value known to be ≥ 0
+  deriving Repr, DecidableEq
+
+structure GoEnv where
+  num : String → Option Int
+  bool : String → Option Bool
+
+def evalN (env : GoEnv) : GoE → Option Int
+  | .f name => env.num name
+  | .n v => some v
+  | .sub a b => do
+    let x ← evalN env a
+    let y ← evalN env b
+    if x ≥ y then some (x - y) else none
+  | .jfloor a => do
+    let x ← evalN env a
+    if x ≥ 0 then some (joinFloor x.toNat) else none
+  | .u64 a => do
+    let x ← evalN env a
+    if x ≥ 0 then some x else none
+  | _ => none
+
+def evalB (env : GoEnv) : GoE → Option Bool
+  | .f name => env.bool name
+  | .gt a b => do some (decide ((← evalN env a) > (← evalN env b)))
+  | .ge a b => do some (decide ((← evalN env a) ≥ (← evalN env b)))
+  | .lt a b => do some (decide ((← evalN env a) < (← evalN env b)))
+  | .le a b => do some (decide ((← evalN env a) ≤ (← evalN env b)))
+  | .eq a b => do some (decide ((← evalN env a) = (← evalN env b)))
+  | .and a b => do
+    let x ← evalB env a
+    if x then evalB env b else some false          -- Go's && short-circuits
+  | .or a b => do
+    let x ← evalB env a
+    if x then some true else evalB env b
+  | .not a => do some (!(← evalB env a))
+  | _ => none
+
+/-- `maxMembershipFloor(operands...)` over evaluated operands -/
+def evalMax (env : GoEnv) (ops : List GoE) : Option Nat :=
+  (ops.mapM (evalN env)).map (fun xs => maxFloor (xs.map Int.toNat))
+
 end WK.C34
